@@ -92,7 +92,12 @@ type Address struct {
 // string.
 func NewAddress(addr string) (Address, error) {
 	var decoded []byte
-	hrp, data, err := bech32.DecodeNoLimit(addr)
+	hrp, data, version, err := bech32.DecodeNoLimitWithVersion(addr)
+	if err == nil && version != bech32.Version0 {
+		// CIP-19 addresses use BIP-173 bech32; a BIP-350 (bech32m)
+		// checksum is a bad checksum
+		err = errors.New("invalid bech32 checksum")
+	}
 	isBech32 := err == nil
 	if err == nil {
 		decoded, err = bech32.ConvertBits(data, 5, 8, false)
